@@ -50,6 +50,16 @@ static void monitor_limits(htp_connp_t *c) {
         hx_verdict_add("C10", "res_repetitions", "res_header_repetitions=%u", c->out_tx->res_header_repetitions);
 }
 
+/* bytes a streaming sub-parser of the transaction is holding between calls (fields it has to assemble) */
+static size_t builder_bytes(bstr_builder_t *bb) { size_t t = 0; if (!bb || !bb->pieces) return 0; for (size_t i = 0, n = htp_list_size(bb->pieces); i < n; i++) { bstr *b = htp_list_get(bb->pieces, i); if (b) t += bstr_len(b) + 8; } return t; }
+static size_t tx_buffered(htp_tx_t *tx) {
+    size_t t = 0;
+    if (!tx) return 0;
+    if (tx->request_urlenp_body) { t += builder_bytes(tx->request_urlenp_body->_bb); if (tx->request_urlenp_body->_name) t += bstr_len(tx->request_urlenp_body->_name); if (tx->request_urlenp_body->params) t += 48 * htp_table_size(tx->request_urlenp_body->params); }
+    if (tx->request_mpartp) { htp_mpartp_t *m = tx->request_mpartp; t += builder_bytes(m->boundary_pieces) + builder_bytes(m->part_header_pieces) + builder_bytes(m->part_data_pieces); if (m->pending_header_line) t += bstr_len(m->pending_header_line); if (m->multipart.parts) t += 64 * htp_list_size(m->multipart.parts); }
+    return t;
+}
+
 /* one data call + M-api */
 static int drv_call(htp_connp_t *c, int dir, const uint8_t *data, size_t len, int gap) {
     hx_obs *o = hx_cur;
@@ -57,10 +67,15 @@ static int drv_call(htp_connp_t *c, int dir, const uint8_t *data, size_t len, in
     if (!gap && len > 0) { copy = __real_malloc(len); memcpy(copy, data, len); }
     int64_t cnt0 = dir == 0 ? c->conn->in_data_counter : c->conn->out_data_counter;
     int ncb0 = o->ncb;
+    uint64_t w0 = hx_work;
+    size_t buffered0 = dir == 0 ? ((c->in_buf ? c->in_buf_size : 0) + (c->in_header ? bstr_len(c->in_header) : 0)) : ((c->out_buf ? c->out_buf_size : 0) + (c->out_header ? bstr_len(c->out_header) : 0));
+    if (hx_work) buffered0 += tx_buffered(dir == 0 ? c->in_tx : c->out_tx);
     hx_in_lib = 1;
     int rc = dir == 0 ? htp_connp_req_data(c, &drv_tv, gap ? NULL : copy, len) : htp_connp_res_data(c, &drv_tv, gap ? NULL : copy, len);
     size_t consumed = dir == 0 ? htp_connp_req_data_consumed(c) : htp_connp_res_data_consumed(c);
     hx_in_lib = 0;
+    { uint64_t dw = hx_work - w0; o->work_total += dw; double ratio = dw > HX_WORK_B ? (double) (dw - HX_WORK_B) / (double) (len + buffered0 + 1) : 0;   /* work <= A.(len+buffered) + B */
+      if (ratio > o->work_call_max) { o->work_call_max = ratio; o->work_call_max_len = (uint32_t) len; o->work_call_max_buffered = (uint32_t) buffered0; o->work_call_max_work = dw; } }
     int64_t cnt1 = dir == 0 ? c->conn->in_data_counter : c->conn->out_data_counter;
     if (copy) {
         /* nothing in the parser may keep pointing into the caller's chunk after the call returns:
@@ -176,6 +191,7 @@ static void obs_reset(hx_obs *o) {
     o->nsteady = 0; o->steady_last = 0; o->steady_n_total = 0; o->steady_growth_at = 0;
     o->q_consumed_total = o->s_consumed_total = 0;
     o->final_in_status = o->final_out_status = 0;
+    o->work_total = 0; o->work_call_max = 0; o->work_call_max_len = o->work_call_max_buffered = 0; o->work_call_max_work = 0;
 }
 
 static void inflight_publish(const hx_script *s);
